@@ -20,7 +20,14 @@
 // another chain.  CA (and some leaf) subject names are given as hand-encoded RawSubject bytes in
 // forms pkix.Name does not emit (names.go), so that copying a name and re-encoding the parsed name
 // differ; every history submits a trusted certificate on its own (validated path = the leaf alone,
-// extra data = the encoding of an EMPTY chain).
+// extra data = the encoding of an EMPTY chain).  Two in three RSA keys of CAs and leaves stand in
+// their certificates in a SubjectPublicKeyInfo encoding that an encoder of the parsed key does not
+// emit (no NULL parameters, padded INTEGERs; spki.go), so that hashing / copying the bytes as they
+// stand and re-encoding the key differ.  Every history also contains two rounds of requests that
+// are IN FLIGHT TOGETHER on the one instance (overlap.go): a lock-step round (exact, replayable
+// interleaving at the points where the instance calls its surroundings) and a free round (own
+// goroutines; the harness is built with the race detector); every answer is judged against the
+// chain submitted in that same request.
 //
 // For every request the harness records the QueueLeafRequest, RequestLog.IssueSCT and the
 // response, and evaluates the property's sentence directly (independent of the Coq model):
@@ -30,7 +37,7 @@
 // certificate (same content, SCT list instead of poison, issued by the final CA) with its SCT
 // list removed and the final issuer's key hash, and (c) field by field on the queued entry with a
 // hand-written DER walk: issuer_key_hash = SHA-256(SPKI of the certificate the PKI construction
-// knows to be the final issuer), TBSCertificate.issuer = that certificate's subject, authority key
+// knows to be the final issuer, the bytes as they stand in that certificate's DER), TBSCertificate.issuer = that certificate's subject, authority key
 // id = its subject key id, no poison; LeafValue = that entry at the request's own
 // timestamp; LeafIdentityHash = SHA-256(submitted leaf); ExtraData = the validated chain with
 // the root (hand encoding; and a get-entries client's decoder gets the leaf and that chain back
@@ -39,7 +46,6 @@ package main
 
 import (
 	"bytes"
-	"context"
 	"crypto"
 	"crypto/ecdsa"
 	"crypto/rsa"
@@ -55,7 +61,7 @@ import (
 	"math/big"
 	mrand "math/rand"
 	"net/http"
-	"net/http/httptest"
+	"sort"
 	"strings"
 	"time"
 
@@ -66,9 +72,6 @@ import (
 	"github.com/google/certificate-transparency-go/x509"
 	"github.com/google/certificate-transparency-go/x509/pkix"
 	"github.com/google/trillian"
-	"google.golang.org/genproto/googleapis/rpc/code"
-	spb "google.golang.org/genproto/googleapis/rpc/status"
-	"google.golang.org/protobuf/proto"
 	"k8s.io/klog/v2"
 
 	"verif/harness/ctfeenv"
@@ -136,7 +139,7 @@ func dummySCTListExt(r *mrand.Rand) pkix.Extension {
 }
 
 var leafKinds = []string{"p256", "p256", "p384", "rsa2048", "ed25519"}
-var caKinds = []string{"p256", "p256", "p384", "rsa2048"}
+var caKinds = []string{"p256", "p256", "p384", "rsa2048", "rsa2048"}
 
 type world struct {
 	r       *mrand.Rand
@@ -151,15 +154,16 @@ type world struct {
 	nameRaw   map[string][]byte
 	nameStyle map[string]string
 	styleOf   map[*pki.Entity]string
-	alone     []*item // trusted certificates submitted on their own (validated path of length 1)
-	pool      []*item // every other item
+	spkiOf    map[*pki.Entity]string // how the certificate's SubjectPublicKeyInfo is encoded (spki.go)
+	alone     []*item                // trusted certificates submitted on their own (validated path of length 1)
+	pool      []*item                // every other item
 }
 
 // subject decides once per common name (cross-certified twins share it) how the subject is
 // encoded: by harness/pki from a pkix.Name ("go") or as RawSubject bytes assembled in names.go.
 func (w *world) subject(cn string, handOneIn, outOf int) ([]byte, string) {
 	if w.nameStyle == nil {
-		w.nameRaw, w.nameStyle, w.styleOf = map[string][]byte{}, map[string]string{}, map[*pki.Entity]string{}
+		w.nameRaw, w.nameStyle, w.styleOf, w.spkiOf = map[string][]byte{}, map[string]string{}, map[*pki.Entity]string{}, map[*pki.Entity]string{}
 	}
 	if st, ok := w.nameStyle[cn]; ok {
 		return w.nameRaw[cn], st
@@ -188,7 +192,15 @@ func ski(r *mrand.Rand) []byte { return randBytes(r, 20) }
 func (w *world) ca(cn string, parent *pki.Entity, ekus []x509.ExtKeyUsage, keyIdx int, kind string, skid []byte) *pki.Entity {
 	raw, style := w.subject(cn, 3, 4)
 	e := pki.Issue(pki.Opts{CN: cn, IsCA: true, KeyKind: kind, KeyIdx: keyIdx, SKI: skid, EKUs: ekus, Mutate: withRawSubject(raw)}, parent)
-	w.styleOf[e] = style
+	// the same key in an encoding of its SubjectPublicKeyInfo that no encoder of the parsed key
+	// emits (cross-certified twins draw independently: one key, two encodings)
+	spkiStyle := drawSPKIStyle(w.r, kind)
+	signer := e.Key
+	if parent != nil {
+		signer = parent.Key
+	}
+	e = respki(e, signer, spkiStyle)
+	w.styleOf[e], w.spkiOf[e] = style, spkiStyle
 	if raw != nil && !bytes.Equal(handSubject(e.DER), raw) {
 		panic("harness/pki did not issue the certificate with the subject bytes it was given")
 	}
@@ -216,18 +228,24 @@ func (w *world) leaf(k int, pre bool, signer, finalSigner *pki.Entity) (leaf, fi
 	if r.Intn(2) == 0 {
 		leafSKI = ski(r)
 	}
+	// the leaf's own SubjectPublicKeyInfo (copied into the entry's TBSCertificate byte for byte)
+	leafSPKI := drawSPKIStyle(r, kind)
 	mk := func(extra []pkix.Extension, parent *pki.Entity) *pki.Entity {
-		return pki.Issue(pki.Opts{CN: cn, KeyKind: kind, KeyIdx: 4 + r.Intn(2), Serial: newInt(serialBytes), ExtraExt: extra, SKI: leafSKI,
+		e := pki.Issue(pki.Opts{CN: cn, KeyKind: kind, KeyIdx: 4 + r.Intn(2), Serial: newInt(serialBytes), ExtraExt: extra, SKI: leafSKI,
 			DNSNames: []string{cn}, EKUs: []x509.ExtKeyUsage{x509.ExtKeyUsageServerAuth}, Mutate: withRawSubject(rawSubj)}, parent)
+		return respki(e, parent.Key, leafSPKI)
 	}
 	if !pre {
-		return mk(others, signer), nil, fmt.Sprintf("cert key=%s ext=%d subject-dn=%s", kind, nExtra, subjStyle)
+		leaf = mk(others, signer)
+		w.spkiOf[leaf] = leafSPKI
+		return leaf, nil, fmt.Sprintf("cert key=%s ext=%d subject-dn=%s spki=%s", kind, nExtra, subjStyle, leafSPKI)
 	}
 	// same key slot for precert and final certificate
 	slot := 4 + r.Intn(2)
 	mk = func(extra []pkix.Extension, parent *pki.Entity) *pki.Entity {
-		return pki.Issue(pki.Opts{CN: cn, KeyKind: kind, KeyIdx: slot, Serial: newInt(serialBytes), ExtraExt: extra, SKI: leafSKI,
+		e := pki.Issue(pki.Opts{CN: cn, KeyKind: kind, KeyIdx: slot, Serial: newInt(serialBytes), ExtraExt: extra, SKI: leafSKI,
 			DNSNames: []string{cn}, EKUs: []x509.ExtKeyUsage{x509.ExtKeyUsageServerAuth}, Mutate: withRawSubject(rawSubj)}, parent)
+		return respki(e, parent.Key, leafSPKI)
 	}
 	pi := r.Intn(len(others) + 1)
 	sj := r.Intn(len(others) + 1)
@@ -241,7 +259,8 @@ func (w *world) leaf(k int, pre bool, signer, finalSigner *pki.Entity) (leaf, fi
 		finalExt = append(finalExt, handAKIExt(finalSigner.Cert.SubjectKeyId))
 	}
 	final = mk(finalExt, finalSigner)
-	return leaf, final, fmt.Sprintf("precert key=%s ext=%d poison@%d sct@%d subject-dn=%s", kind, nExtra, pi, sj, subjStyle)
+	w.spkiOf[leaf] = leafSPKI
+	return leaf, final, fmt.Sprintf("precert key=%s ext=%d poison@%d sct@%d subject-dn=%s spki=%s", kind, nExtra, pi, sj, subjStyle, leafSPKI)
 }
 
 // handAKIExt is AuthorityKeyIdentifier ::= SEQUENCE { keyIdentifier [0] IMPLICIT OCTET STRING } by hand.
@@ -558,7 +577,7 @@ func preissuerCoq(c *x509.Certificate) string {
 }
 
 func certInfoCoq(e *pki.Entity) string {
-	return fmt.Sprintf("{| c_der := %s; c_spki := %s; c_pi := %s |}", lib.Bytes(e.DER), lib.Bytes(e.Cert.RawSubjectPublicKeyInfo), preissuerCoq(e.Cert))
+	return fmt.Sprintf("{| c_der := %s; c_spki := %s; c_pi := %s |}", lib.Bytes(e.DER), lib.Bytes(handSPKI(e.DER)), preissuerCoq(e.Cert))
 }
 
 func optBytes(b []byte, ok bool) string {
@@ -604,7 +623,9 @@ func handEntry(it *item) ([]byte, uint16, bool) {
 	if err != nil {
 		return nil, 1, false
 	}
-	h := sha256.Sum256(it.finalIssuer.Cert.RawSubjectPublicKeyInfo)
+	// issuer_key_hash: SHA-256 over the SubjectPublicKeyInfo bytes as they stand in the final
+	// issuer's certificate (read out by hand; not a parser's field, not an encoding of the key)
+	h := sha256.Sum256(handSPKI(it.finalIssuer.DER))
 	out := append([]byte{}, h[:]...)
 	out = append(out, u24(len(tbs))...)
 	return append(out, tbs...), 1, true
@@ -659,9 +680,9 @@ func precertEntryFacts(entry []byte, finalIssuer *pki.Entity, precertDER []byte)
 	if len(entry) < 35 {
 		return "the precertificate entry is too short"
 	}
-	want := sha256.Sum256(finalIssuer.Cert.RawSubjectPublicKeyInfo)
+	want := sha256.Sum256(handSPKI(finalIssuer.DER))
 	if !bytes.Equal(entry[:32], want[:]) {
-		return "issuer_key_hash is not SHA-256 of the FINAL issuer's SubjectPublicKeyInfo"
+		return "issuer_key_hash is not SHA-256 of the FINAL issuer's SubjectPublicKeyInfo as it stands in that CA's certificate"
 	}
 	n := int(entry[32])<<16 | int(entry[33])<<8 | int(entry[34])
 	if len(entry) != 35+n {
@@ -833,18 +854,20 @@ func (o instOpts) tags() []string {
 		fmt.Sprintf("opt:prod-request-log=%v", o.ProdReqLog), fmt.Sprintf("opt:deadline=%ds", o.DeadlineSec)}
 }
 
-func (o instOpts) apply(e *ctfeenv.Options) {
+func (o instOpts) apply(e *ctfeenv.Options, sc *sched) {
 	switch o.CertQuota {
 	case "ct_server":
-		e.CertificateQuotaUser = ctfe.QuotaUserForCert // what ct_server installs with --quota_intermediate (its default)
+		// what ct_server installs with --quota_intermediate (its default)
+		e.CertificateQuotaUser = func(c *x509.Certificate) string { sc.park("quota.cert"); return ctfe.QuotaUserForCert(c) }
 	case "spki":
 		e.CertificateQuotaUser = func(c *x509.Certificate) string {
+			sc.park("quota.cert")
 			h := sha256.Sum256(c.RawSubjectPublicKeyInfo)
 			return fmt.Sprintf("@ca %x", h[:8])
 		}
 	}
 	if o.RemoteQuota {
-		e.RemoteQuotaUser = func(rq *http.Request) string { return "@remote " + rq.RemoteAddr }
+		e.RemoteQuotaUser = func(rq *http.Request) string { sc.park("quota.remote"); return "@remote " + rq.RemoteAddr }
 	}
 	e.Mask = o.Mask
 	if o.ProdReqLog {
@@ -863,7 +886,8 @@ type stepRec struct {
 	ClockNs  int64    `json:"clock_ns"`
 	Clock    string   `json:"clock_class"`
 	Repeat   bool     `json:"repeat_of_stored_leaf"`
-	Chain    []string `json:"chain_b64,omitempty"` // filled when the step fails the direct oracle
+	Round    string   `json:"in_flight_with,omitempty"` // the round of overlapping requests it was part of
+	Chain    []string `json:"chain_b64,omitempty"`      // filled when the step fails the direct oracle
 }
 
 type stepObs struct {
@@ -875,10 +899,25 @@ type stepObs struct {
 	Problem   string `json:"problem,omitempty"`
 }
 
+// roundRec: one round of requests in flight together; Schedule lists, for a lock-step round, which
+// request (position in Members) went on from which park point (letters: overlap.go parkPoints; "n."
+// = request n finished).
+type roundRec struct {
+	Kind     string   `json:"kind"`
+	Policy   string   `json:"policy"`
+	First    int      `json:"first_step"`
+	Members  []string `json:"members"`
+	Schedule string   `json:"schedule,omitempty"`
+}
+
 func runHistory(w *world, nSteps int, out *lib.Writer) {
 	r := w.r
+	sc := &sched{}
 	eopts := ctfeenv.Options{Roots: w.roots, LogKey: w.logKey, Dir: *lib.OutDir}
-	w.opts.apply(&eopts)
+	w.opts.apply(&eopts, sc)
+	// the instance's surroundings park the running request of a lock-step round (overlap.go)
+	eopts.RequestLogInner = &hookLog{s: sc, inner: eopts.RequestLogInner}
+	eopts.WrapSigner = func(k crypto.Signer) crypto.Signer { return parkSigner{Signer: k, s: sc} }
 	env, err := ctfeenv.New(eopts)
 	if err != nil {
 		panic(err)
@@ -900,22 +939,10 @@ func runHistory(w *world, nSteps int, out *lib.Writer) {
 	}
 	hash(logSPKI)
 
-	// the de-duplicating backend
-	stored := map[string]*trillian.LogLeaf{}
-	lastDup := false
-	env.Backend.QueueLeafFn = func(_ context.Context, rq *trillian.QueueLeafRequest) (*trillian.QueueLeafResponse, error) {
-		k := string(rq.Leaf.LeafIdentityHash)
-		if old, ok := stored[k]; ok {
-			lastDup = true
-			return &trillian.QueueLeafResponse{QueuedLeaf: &trillian.QueuedLogLeaf{
-				Leaf:   proto.Clone(old).(*trillian.LogLeaf),
-				Status: &spb.Status{Code: int32(code.Code_ALREADY_EXISTS), Message: "leaf already exists"},
-			}}, nil
-		}
-		lastDup = false
-		stored[k] = proto.Clone(rq.Leaf).(*trillian.LogLeaf)
-		return &trillian.QueueLeafResponse{QueuedLeaf: &trillian.QueuedLogLeaf{Leaf: proto.Clone(rq.Leaf).(*trillian.LogLeaf)}}, nil
-	}
+	// the de-duplicating backend (overlap.go): every call is booked on the request it is made for
+	backend := &dedupBackend{s: sc, stored: map[string]*trillian.LogLeaf{}}
+	env.Backend.QueueLeafFn = backend.queueLeaf
+	run := &runner{env: env, s: sc}
 
 	firstIssuance := map[string]string{} // leaf DER -> issuance variant of its first accepted submission
 	conflictProblems, otherProblems := 0, 0
@@ -924,6 +951,7 @@ func runHistory(w *world, nSteps int, out *lib.Writer) {
 	var coqSteps []string
 	var recs []stepRec
 	var obss []stepObs
+	var rounds []roundRec
 	propOK := true
 	var notes []string
 	tags := append([]string{}, w.tags...)
@@ -931,23 +959,25 @@ func runHistory(w *world, nSteps int, out *lib.Writer) {
 	tags = append(tags, w.opts.tags()...)
 	var used []*item
 	tried, triedLeaf := map[string]bool{}, map[string]bool{}
+	s := -1 // number of the request being judged, in the order of the history
 
-	// one step of every history (besides what the random picks bring) submits a trusted certificate on its own
-	nSteps++
-	aloneAt := r.Intn(nSteps)
-	for s := 0; s < nSteps; s++ {
+	// siblings: the items that submit the same leaf certificate (the same or another chain)
+	siblings := func(prev *item) []*item {
+		var same []*item
+		for _, x := range w.items {
+			if !x.invalid && len(x.submitted) > 0 && bytes.Equal(x.submitted[0].DER, prev.submitted[0].DER) {
+				same = append(same, x)
+			}
+		}
+		return same
+	}
+	pick := func(aloneStep bool) *item {
 		var it *item
-		if s == aloneAt && len(w.alone) > 0 {
+		if aloneStep && len(w.alone) > 0 {
 			it = w.alone[r.Intn(len(w.alone))]
 		} else if len(used) > 0 && r.Intn(2) == 0 {
 			// resubmit something related to an earlier step: same item, or another chain for the same leaf
-			prev := used[r.Intn(len(used))]
-			var same []*item
-			for _, x := range w.items {
-				if !x.invalid && len(x.submitted) > 0 && bytes.Equal(x.submitted[0].DER, prev.submitted[0].DER) {
-					same = append(same, x)
-				}
-			}
+			same := siblings(used[r.Intn(len(used))])
 			it = same[r.Intn(len(same))]
 		} else {
 			// (the trusted certificates on their own have their step, and come back as repeats)
@@ -966,49 +996,48 @@ func runHistory(w *world, nSteps int, out *lib.Writer) {
 				}
 			}
 		}
+		return it
+	}
+	mark := func(it *item) {
 		tried[it.name] = true
 		if !it.invalid {
 			triedLeaf[string(it.submitted[0].DER)] = true
 		}
+	}
+	newRequest := func(it *item) *request {
+		mark(it)
 		now, clockClass := clockValue(r)
-		env.Clock.Set(now)
-		env.Backend.Reset()
-		env.ReqLog.Reset()
-		lastDup = false
-		var chain [][]byte
+		return &request{it: it, now: now, clockClass: clockClass}
+	}
+
+	// judge: the property's sentence on ONE request - its own answer against its own submission -
+	// and the request's step of the model's history.  Requests are judged in the order in which
+	// the backend saw them.
+	judge := func(q *request) {
+		s++
+		it, now, clockClass, rec, issued, lastDup := q.it, q.now, q.clockClass, q.rec, q.issued, q.dup
 		var chainB64 []string
 		for _, e := range it.submitted {
-			chain = append(chain, e.DER)
 			chainB64 = append(chainB64, base64.StdEncoding.EncodeToString(e.DER))
 		}
-		var rec *httptest.ResponseRecorder
-		panicked := false
-		func() {
-			defer func() {
-				if x := recover(); x != nil {
-					panicked = true
-				}
-			}()
-			rec = env.AddChain(it.pre, chain)
-		}()
-		calls := env.Backend.Reset()
-		issued, _ := env.ReqLog.Reset()
+		nQueue := len(q.queue)
 		var qreq *trillian.QueueLeafRequest
-		nQueue := 0
-		for _, c := range calls {
-			if c.Method == "QueueLeaf" {
-				nQueue++
-				qreq = c.Req.(*trillian.QueueLeafRequest)
-			}
+		if nQueue > 0 {
+			qreq = q.queue[nQueue-1]
 		}
 		status := -1
-		if !panicked {
+		if !q.panicked && rec != nil {
 			status = rec.Code
 		}
 		leafKey := string(it.submitted[0].DER)
 		_, seen := firstTS[leafKey]
-		sr := stepRec{Item: it.name, Shape: it.shape, Pre: it.pre, ChainLen: len(it.submitted), ClockNs: now.UnixNano(), Clock: clockClass, Repeat: seen}
+		sr := stepRec{Item: it.name, Shape: it.shape, Pre: it.pre, ChainLen: len(it.submitted), ClockNs: now.UnixNano(), Clock: clockClass, Repeat: seen, Round: q.round}
 		so := stepObs{Status: status, Queued: nQueue > 0, Issued: len(issued), Dup: lastDup}
+		if q.round == "" {
+			tags = append(tags, "in-flight:alone")
+		} else {
+			tags = append(tags, "in-flight:"+strings.SplitN(q.round, "#", 2)[0])
+		}
 		// the stored entry of this leaf was derived from ANOTHER issuer chain (cross-certified pre-issuer)
 		conflict := seen && firstIssuance[leafKey] != it.issuance
 		problem := func(f string, a ...interface{}) {
@@ -1043,6 +1072,11 @@ func runHistory(w *world, nSteps int, out *lib.Writer) {
 		}
 		if !it.invalid {
 			tags = append(tags, fmt.Sprintf("validated-len:%d", len(it.validated)))
+			tags = append(tags, "leaf-spki:"+w.spkiOf[it.submitted[0]])
+			if it.pre && it.finalIssuer != nil {
+				// the bytes issuer_key_hash is taken over
+				tags = append(tags, "precert-final-issuer-spki:"+w.spkiOf[it.finalIssuer])
+			}
 		}
 		switch {
 		case it.pre && strings.Contains(it.shape, "preissuer("), it.pre && strings.Contains(it.shape, "xpre="):
@@ -1066,7 +1100,7 @@ func runHistory(w *world, nSteps int, out *lib.Writer) {
 			}
 			coqSteps = append(coqSteps, fmt.Sprintf("Invalid %s %s %s", lib.Z(int64(status)), lib.Bool(nQueue > 0), lib.Bool(len(issued) > 0)))
 			recs, obss = append(recs, sr), append(obss, so)
-			continue
+			return
 		}
 		used = append(used, it)
 
@@ -1074,7 +1108,7 @@ func runHistory(w *world, nSteps int, out *lib.Writer) {
 		var rest []string
 		for _, e := range it.validated[1:] {
 			rest = append(rest, certInfoCoq(e))
-			hash(e.Cert.RawSubjectPublicKeyInfo)
+			hash(handSPKI(e.DER))
 		}
 		hash(it.submitted[0].DER)
 		subCoq := fmt.Sprintf("{| s_pre := %s; s_leaf := %s; s_tbs := %s; s_rest := %s; s_now := %s |}",
@@ -1264,6 +1298,120 @@ func runHistory(w *world, nSteps int, out *lib.Writer) {
 		recs, obss = append(recs, sr), append(obss, so)
 	}
 
+	// a round of requests that are in flight together (overlap.go)
+	round := func(kind string) bool {
+		k := 2 + r.Intn(3)
+		distinct := kind == "free"
+		if distinct {
+			k = 2 + r.Intn(2)
+		}
+		var reqs []*request
+		inRound := map[string]bool{}
+		twice := false
+		for tries := 0; len(reqs) < k && tries < 40; tries++ {
+			var it *item
+			if len(reqs) > 0 && !distinct && r.Intn(3) == 0 && !reqs[len(reqs)-1].it.invalid {
+				// the same leaf certificate twice in one round, with the same or another chain:
+				// the later of the two (as the backend sees them) is a repeat
+				same := siblings(reqs[r.Intn(len(reqs))].it)
+				if len(same) == 0 {
+					continue
+				}
+				it = same[r.Intn(len(same))]
+			} else {
+				it = pick(false)
+			}
+			leaf := string(it.submitted[0].DER)
+			if inRound[leaf] {
+				if distinct {
+					continue
+				}
+				twice = true
+			}
+			inRound[leaf] = true
+			q := newRequest(it)
+			q.idx = len(reqs)
+			reqs = append(reqs, q)
+		}
+		if len(reqs) < 2 {
+			return true
+		}
+		rr := roundRec{Kind: kind, First: s + 1}
+		finished := true
+		switch kind {
+		case "lockstep":
+			policy, choose := "random", func(live []*request) *request { return live[r.Intn(len(live))] }
+			switch r.Intn(4) {
+			case 0, 1:
+				policy, choose = "rendezvous", rendezvous(false)
+			case 2:
+				policy, choose = "rendezvous-reverse", rendezvous(true)
+			}
+			rr.Policy = policy
+			rr.Schedule, finished = run.lockstep(reqs, choose)
+		case "free":
+			// one clock value: any serial order of requests for distinct leaves is the same history
+			now, clockClass := clockValue(r)
+			for _, q := range reqs {
+				q.now, q.clockClass = now, clockClass
+			}
+			rr.Policy = "go-scheduler"
+			finished = run.free(reqs, now)
+		}
+		name := fmt.Sprintf("%s/%s#%d", kind, rr.Policy, len(rounds))
+		for _, q := range reqs {
+			q.round = name
+			rr.Members = append(rr.Members, q.it.name)
+		}
+		rounds = append(rounds, rr)
+		tags = append(tags, "round:"+kind+"/"+rr.Policy, fmt.Sprintf("round-size:%d", len(reqs)))
+		if twice {
+			tags = append(tags, "round:same-leaf-twice")
+		}
+		env.Backend.Reset()
+		env.ReqLog.Reset()
+		if !finished {
+			propOK = false
+			otherProblems++
+			notes = append(notes, fmt.Sprintf("round %s of %d requests %v did not finish within %v (schedule so far: %s)", name, len(reqs), rr.Members, roundPatience, rr.Schedule))
+			return false
+		}
+		// the order in which the backend saw them is the order of the history
+		sort.SliceStable(reqs, func(a, b int) bool {
+			qa, qb := reqs[a], reqs[b]
+			if (len(qa.queue) > 0) != (len(qb.queue) > 0) {
+				return len(qa.queue) > 0
+			}
+			return len(qa.queue) > 0 && qa.queueSeq < qb.queueSeq
+		})
+		for _, q := range reqs {
+			judge(q)
+		}
+		return true
+	}
+
+	// one step of every history (besides what the random picks bring) submits a trusted certificate
+	// on its own; one lock-step round and one free round stand somewhere between the steps
+	nSteps++
+	aloneAt := r.Intn(nSteps)
+	lockAt, freeAt := r.Intn(nSteps+1), r.Intn(nSteps+1)
+	for k := 0; k <= nSteps; k++ {
+		if k == lockAt && !round("lockstep") {
+			break
+		}
+		if k == freeAt && !round("free") {
+			break
+		}
+		if k == nSteps {
+			break
+		}
+		q := newRequest(pick(k == aloneAt))
+		run.alone(q)
+		env.Backend.Reset()
+		env.ReqLog.Reset()
+		judge(q)
+	}
+
 	var tab []string
 	for _, k := range htabOrder {
 		tab = append(tab, lib.Pair(lib.Bytes([]byte(k)), lib.Bytes(htab[k])))
@@ -1279,7 +1427,7 @@ func runHistory(w *world, nSteps int, out *lib.Writer) {
 	}
 	out.Add(lib.Case{
 		Coq:    fmt.Sprintf("CHistory %s %s %s %s", lib.Bytes(logSPKI), kind, lib.List(tab), "["+strings.Join(coqSteps, "; ")+"]"),
-		Input:  map[string]interface{}{"log_key": w.logKind, "options": w.opts, "roots": len(w.roots), "steps": recs},
+		Input:  map[string]interface{}{"log_key": w.logKind, "options": w.opts, "roots": len(w.roots), "steps": recs, "rounds": rounds},
 		Impl:   obss,
 		PropOK: propOK, Note: note, Tags: tags,
 	})
@@ -1292,7 +1440,8 @@ func main() {
 	r := lib.Rand()
 	out := lib.NewWriter(header, 2)
 	defer out.Guard()
-	n := lib.Count(26, 240)
+	// (a history is 5-10 requests on their own plus two rounds of 2-4 requests in flight together)
+	n := lib.Count(26, 150)
 	for i := 0; i < n; i++ {
 		w := &world{r: r, id: i}
 		w.logKind = logKinds[i%len(logKinds)]
